@@ -39,6 +39,7 @@ NORMALISATIONS = [
     'logging macros fail!/fatal_panic!/warn!/error!/debug!/trace!/info! are regenerated from '
     'iceoryx2-log/log/src/{fail,log}.rs of the current tree with the logging statements deleted '
     '(control flow kept; message arguments not evaluated)',
+    '`matches!(E, b".." | b"..")` on a slice is expanded to length + element comparisons generated from the literals (Verus mis-encodes byte-string patterns)',
     'the per-unit rewrite table (regex => replacement with expected match count) listed under rewrites',
 ]
 
@@ -131,6 +132,37 @@ def _split_debug_assert(body):
         i = e
     out.append(body[i:])
     return ''.join(out)
+
+
+def _bytes_of_literal(lit):
+    """b"..." literal text -> list of byte values (simple escapes only)."""
+    body = lit[2:-1]
+    out = []
+    i = 0
+    while i < len(body):
+        c = body[i]
+        if c == '\\':
+            n = body[i + 1]
+            if n == 'x':
+                out.append(int(body[i + 2:i + 4], 16)); i += 4; continue
+            out.append({'n': 10, 'r': 13, 't': 9, '0': 0, '\\': 92, '"': 34, "'": 39}[n]); i += 2; continue
+        out.append(ord(c)); i += 1
+    return out
+
+
+def _expand_bytes_matches(body):
+    """matches!(E, b"a" | b"bc") -> ((E.len() == 1 && E[0] == 97u8) || (E.len() == 2 && ...)): Verus mis-encodes byte-string
+    literal patterns against slices (ill-typed AIR), so the pattern is expanded mechanically from the literals themselves."""
+    rx = re.compile(r'matches!\(\s*(\w+)\s*,\s*((?:b"(?:[^"\\\\]|\\\\.)*"\s*\|?\s*)+)\)')
+    def rep(mm):
+        e = mm.group(1)
+        lits = re.findall(r'b"(?:[^"\\]|\\.)*"', mm.group(2))
+        alts = []
+        for l in lits:
+            bs = _bytes_of_literal(l)
+            alts.append('(' + ' && '.join(['%s.len() == %d' % (e, len(bs))] + ['%s[%d] == %du8' % (e, k, b) for k, b in enumerate(bs)]) + ')')
+        return '(' + ' || '.join(alts) + ')'
+    return rx.sub(rep, body)
 
 
 def _name_return(sig, ret):
@@ -299,6 +331,7 @@ def _emit_fn(fb, src, out, meta):
         sig = re.sub(r'\bfn\s+%s\b' % re.escape(a['item']), 'fn ' + new_name, sig, count=1)
     sig = _apply_rw(sig, fb.sig_rw, label + ' (signature)', meta['rewrites'])
     body = _split_debug_assert(body)
+    body = _expand_bytes_matches(body)
     body = re.sub(r'(?m)^[ \t]*self\.verify_init\([^;]*\);[ \t]*\n', '', body)
     body = re.sub(r'(?m)^[ \t]*#\[(inline|allow|cfg_attr|deny)[^\]]*\]\s*\n', '', body)
     body = _apply_rw(body, fb.rw, label, meta['rewrites'])
